@@ -32,6 +32,25 @@ def crowd(kw, **extra):
     return scenarios(**a)
 
 
+def swarm(kw, **extra):
+    """swarm testing: the generator's own knobs are drawn per case, so that combinations of families occur that no
+    hand-written family fixes (e.g. unsorted + long durations + binding ingest limit + back-to-back)"""
+    gapsets = [(0, 0, 0, 1), (0, 1, 2, 3), (1, 2, 3), (0, 0, 1, 2, 5, 10), (2, 5, 10), (0,)]
+
+    def build(t):
+        ov, lb, un, ld, bb, fm, pp, gi, md, mo = t
+        a = dict(overlap=ov, limit_binds=lb and not ov, unsorted=un, long_durations=ld, b2b=bb, few_machines=fm,
+                 piled_plans=pp, start_gaps=gapsets[gi], max_duration=md, min_obs=mo,
+                 modes=('roomy',) if (ov or lb) else ('roomy', 'band'))
+        a.update(kw)
+        a.update(extra)
+        a['min_obs'] = min(a['min_obs'], a.get('max_obs', 4))
+        return scenarios(**a)
+    b = st.booleans()
+    return st.tuples(b, b, b, b, b, b, b, st.integers(0, len(gapsets) - 1), st.sampled_from([2, 3, 6, 10]),
+                     st.integers(1, 3)).flatmap(build)
+
+
 def tight(kw, **extra):
     """short sub-array observations following each other within a few steps, plan possibly not in start order:
     begin and finish transitions of different observations fall into the same telescope pass"""
@@ -153,7 +172,7 @@ class C05(SimSpec):
         crowd = scenarios(min_obs=3, start_gaps=(0, 0, 0, 1), overlap=True, modes=('roomy',), delays=True, **kw)
         crowd2 = scenarios(min_obs=3, start_gaps=(0, 0, 1), few_machines=True, **kw)
         probe = scenarios(modes=('tiering',), **kw)
-        return mix((3, main), (2, crowd), (1, crowd2), (1, limited(kw, delays=True)), (2, tight(kw)),
+        return mix((3, main), (2, crowd), (1, crowd2), (1, limited(kw, delays=True)), (2, tight(kw)), (2, swarm(kw, delays=True)),
                    (1, scenarios(unsorted=True, min_obs=2, delays=True, **kw)),
                    (1, scenarios(modes=('bandov',), delays=True, **kw)), (1, probe))
 
@@ -224,8 +243,8 @@ class C01(SimSpec):
         shipped2 = scenarios(delays=True, **kw)
         adv = scenarios(adversary=True, delays=True, **kw)
         advfew = scenarios(adversary=True, few_machines=True, min_obs=2, **kw)
-        return mix((2, shipped), (2, shipped2), (2, crowd(kw, delays=True)), (2, adv), (2, advfew),
-                   (2, crowd(kw, adversary=True, min_obs=3)))
+        return mix((2, shipped), (2, shipped2), (2, crowd(kw, delays=True)), (2, swarm(kw, delays=True)), (2, adv), (2, advfew),
+                   (2, crowd(kw, adversary=True, min_obs=3)), (1, swarm(kw, adversary=True)))
 
     def aborted(self, tr):
         return tr.status != 'completed' and tr.sc['alg']['kind'] != 'adversary'
@@ -266,7 +285,7 @@ class C03(SimSpec):
         kw = self.gen_kwargs(tier)
         kw['max_nodes'] = max(kw['max_nodes'], 7)
         return mix((2, scenarios(delays=True, piled_plans=True, **kw)),
-                   (1, crowd(kw, delays=True, piled_plans=True)),
+                   (1, crowd(kw, delays=True, piled_plans=True)), (1, swarm(kw, delays=True)),
                    (1, scenarios(delays=True, piled_plans=True, few_machines=True, **kw)))
 
     def nontrivial(self, tr):
@@ -308,7 +327,7 @@ class C04(SimSpec):
         kw = self.gen_kwargs(tier)
         return mix((4, scenarios(delays=True, min_obs=2, **kw)), (1, scenarios(delays=True, **kw)),
                    (2, crowd(kw, delays=True)), (1, tight(kw)), (1, scenarios(unsorted=True, min_obs=2, delays=True, **kw)),
-                   (3, scenarios(adversary=True, delays=True, **kw)))
+                   (2, swarm(kw, delays=True)), (3, scenarios(adversary=True, delays=True, **kw)), (1, swarm(kw, adversary=True)))
 
     def aborted(self, tr):
         return tr.status != 'completed' and tr.sc['alg']['kind'] != 'adversary'
@@ -366,7 +385,8 @@ class C07(SimSpec):
         main = scenarios(units=True, delays=True, min_obs=2, **kw)
         rej = with_rejection(scenarios(units=True, **kw))
         probe = scenarios(modes=('tiering',), min_obs=2, **kw)
-        return mix((5, main), (2, crowd(kw, delays=True)), (1, scenarios(modes=('bandov',), **kw)), (1, rej), (1, probe))
+        return mix((4, main), (2, crowd(kw, delays=True)), (2, swarm(kw, delays=True, units=True)),
+                   (1, scenarios(modes=('bandov',), **kw)), (1, rej), (1, probe))
 
     def violations(self, tr):
         out = O.C07(tr)
@@ -457,7 +477,7 @@ class C08(SimSpec):
                    (2, scenarios(max_obs=2, modes=('roomy',), max_nodes=2, max_machines=kw['max_machines'])),
                    (1, scenarios(min_obs=2, few_machines=True, **kw)),
                    (2, crowd(kw, min_obs=3, delays=True)),
-                   (2, limited(kw)), (2, tight(kw)), (2, scenarios(modes=('bandov',), **kw)),
+                   (2, limited(kw)), (2, tight(kw)), (2, scenarios(modes=('bandov',), **kw)), (2, swarm(kw, delays=True)),
                    (1, scenarios(unsorted=True, min_obs=2, **kw)),
                    (1, scenarios(min_obs=3, start_gaps=(0, 0, 1), **kw)))
 
@@ -540,7 +560,7 @@ class C09(SimSpec):
     def strategy(self, tier):
         kw = self.gen_kwargs(tier)
         return mix((3, scenarios(algs=('batch',), min_obs=2, delays=True, **kw)),
-                   (2, crowd(kw, algs=('batch',), min_obs=3, delays=True)),
+                   (2, crowd(kw, algs=('batch',), min_obs=3, delays=True)), (2, swarm(kw, algs=('batch',), delays=True)),
                    (1, scenarios(algs=('batch',), min_obs=3, start_gaps=(0, 0, 1, 2), **kw)))
 
     def nontrivial(self, tr):
@@ -595,7 +615,7 @@ class C12(SimSpec):
         return mix((3, scenarios(min_obs=2, delays=True, start_gaps=(0, 0, 1, 1, 2, 3), overlap=True,
                                  modes=('roomy',), max_duration=8, **kw)),
                    (1, scenarios(min_obs=2, delays=True, start_gaps=(0, 0, 1, 1, 2, 3), **kw)),
-                   (1, scenarios(unsorted=True, min_obs=2, delays=True, **kw)),
+                   (1, scenarios(unsorted=True, min_obs=2, delays=True, **kw)), (1, swarm(kw, delays=True)),
                    (1, scenarios(delays=True, **kw)))
 
     def run(self, sc):
@@ -657,7 +677,7 @@ class C13(SimSpec):
 
     def strategy(self, tier):
         kw = self.gen_kwargs(tier)
-        base = mix((3, scenarios(min_obs=2, delays=True, **kw)), (2, crowd(kw)), (2, tight(kw)),
+        base = mix((3, scenarios(min_obs=2, delays=True, **kw)), (2, crowd(kw)), (2, tight(kw)), (2, swarm(kw, delays=True)),
                    (1, scenarios(unsorted=True, min_obs=2, **kw)), (1, scenarios(**kw)))
 
         def add(pair):
@@ -731,7 +751,7 @@ class C17(SimSpec):
     def strategy(self, tier):
         kw = self.gen_kwargs(tier)
         return mix((3, scenarios(algs=('dynamic',), piled_plans=True, min_obs=2, delays=True, **kw)),
-                   (1, crowd(kw, algs=('dynamic',), piled_plans=True, delays=True)),
+                   (1, crowd(kw, algs=('dynamic',), piled_plans=True, delays=True)), (1, swarm(kw, algs=('dynamic',), delays=True)),
                    # "however long that machine is kept busy by ingest": long observations holding planned machines
                    (3, scenarios(algs=('dynamic',), piled_plans=True, min_obs=2, long_durations=True, few_machines=True,
                                  modes=('roomy',), start_gaps=(0, 1, 2, 3), **kw)),
@@ -764,7 +784,7 @@ class C19(SimSpec):
 
     def strategy(self, tier):
         kw = self.gen_kwargs(tier)
-        return mix((3, scenarios(delays=True, **kw)), (1, crowd(kw, delays=True)), (1, tight(kw)),
+        return mix((3, scenarios(delays=True, **kw)), (1, crowd(kw, delays=True)), (1, tight(kw)), (1, swarm(kw, delays=True)),
                    (1, scenarios(unsorted=True, min_obs=2, delays=True, **kw)))
 
     def nontrivial(self, tr):
